@@ -4915,6 +4915,10 @@ gboolean conn_check_handle_inbound_stun (NiceAgent *agent, NiceStream *stream,
               agent->compatibility != NICE_COMPATIBILITY_OC2007) {
           agent_socket_send (nicesock, from, rbuf_len, (const gchar*) rbuf);
         }
+        if (   agent->compatibility == NICE_COMPATIBILITY_MSN
+            || agent->compatibility == NICE_COMPATIBILITY_OC2007) {
+          g_free (req.key);
+        }
         return TRUE;
       }
     }
